@@ -334,8 +334,8 @@ Example safe_rules_example :
   let rs := [rule_of (CIs P1 C_WHITESPACE, ADrop);
              rule_of (CAnd (CIs P1 C_KEYWORD) (CIsNot M1 C_NEWLINE), AInsert [TNewline])] in
   safe_rules rs /\
-  run 100 rs C_NONE [TKeyword [1]; TWhitespace; TIdentifier [2]; TWhitespace; TKeyword [3]]
-  = (Done, [TNewline; TKeyword [1]; TIdentifier [2]; TNewline; TKeyword [3]]).
+  run 100 rs C_NONE [TKeyword [1%N]; TWhitespace; TIdentifier [2%N]; TWhitespace; TKeyword [3%N]]
+  = (Done, [TNewline; TKeyword [1%N]; TIdentifier [2%N]; TNewline; TKeyword [3%N]]).
 Proof.
   cbn zeta. split; [|vm_compute; reflexivity].
   eapply (safe_rules_sound [mkGRule ADrop [(P1, C_WHITESPACE)]; mkGRule (AInsert [TNewline]) []]).
@@ -350,5 +350,5 @@ Qed.
    and such a rule list really loses a significant token *)
 Example unsafe_rule_detected :
   safe_rules_b [mkGRule ADrop [(P1, C_KEYWORD)]] = false /\
-  run 100 [rule_of (CIs P1 C_KEYWORD, ADrop)] C_NONE [TKeyword [1]; TIdentifier [2]] = (Done, [TIdentifier [2]]).
+  run 100 [rule_of (CIs P1 C_KEYWORD, ADrop)] C_NONE [TKeyword [1%N]; TIdentifier [2%N]] = (Done, [TIdentifier [2%N]]).
 Proof. split; vm_compute; reflexivity. Qed.
